@@ -343,6 +343,10 @@ fn confirm_minimise_replay(cfg: &BatchCfg, spec: &PropSpec, sc: &Scenario, v: &V
     }
     // 2. minimise.
     let (min_sc, min_rep) = minimise(sc, &v.prop, &v.rule, again);
+    // One more execution of the minimised scenario with the readable event trace switched on.
+    crate::obs::KEEP_TRACE.store(true, Ordering::SeqCst);
+    let traced = crate::runner::run_scenario(&min_sc);
+    crate::obs::KEEP_TRACE.store(false, Ordering::SeqCst);
     let mv = min_rep.violations.iter().find(|x| x.prop == v.prop && x.rule == v.rule).cloned().unwrap_or_else(|| v.clone());
     // 3. write the replay file.
     let dir = format!("{}/replays", cfg.out_dir);
@@ -356,7 +360,7 @@ fn confirm_minimise_replay(cfg: &BatchCfg, spec: &PropSpec, sc: &Scenario, v: &V
         log_hash: min_rep.log_hash,
         minimised: true,
         scenario: min_sc,
-        trace_tail: min_rep.violations.iter().map(|x| format!("seq={} t_us={} {}.{} node={:?}: {}", x.seq, x.t_us, x.prop, x.rule, x.node, x.detail)).collect(),
+        trace_tail: if traced.trace_tail.is_empty() { min_rep.violations.iter().map(|x| format!("seq={} t_us={} {}.{} node={:?}: {}", x.seq, x.t_us, x.prop, x.rule, x.node, x.detail)).collect() } else { traced.trace_tail.clone() },
     };
     std::fs::write(&path, serde_json::to_string_pretty(&rf).unwrap()).map_err(|e| e.to_string())?;
     // 4. replay in a fresh process.
